@@ -75,12 +75,15 @@ CHECKS = {
          "harness/driver, pad_integral model.",
          "Lean 4 proof (round trip of scientific/plain/{:e}/{:E}/Display for all decimals) + text-exact correspondence of the formatting model with the code", "DESIGN.md §5 C04"),
  "C16": ("Character-level Lean model of precision formatting ({:.N}, {:.Ne}, {:.NE}: round_ascii_digits with carry past nines, integer+fraction / no-integer layouts, zero right-padding with "
-         "FMT_MAX_INTEGER_PADDING, exponent adjustment) and of pad_integral (sign, '+', width, fill, alignment, '0'), compared text-exactly with the real code over every flag combination; the "
-         "unflagged text is read by the grammar specification and must equal the declarative rounding of C06/C07 with exactly N digits; flags must equal pad_integral applied to the implementation's "
-         "own unflagged text. Kernel-checked so far: pad_integral lemma; fmtPrec_eq_round is listed as open in DESIGN.md.",
-         "PARTIAL: agreement with the declarative rounding is decided per generated input by the Lean oracle (whose rounding spec is the one proved equal to with_scale_round in C06), not yet as a theorem "
-         "about the character-level model. Trusted: Lean kernel, extractor, harness/driver, pad_integral model.",
-         "Lean 4 executable model (text-exact correspondence) + declarative rounding oracle; partial proof", "DESIGN.md §5 C16"),
+         "FMT_MAX_INTEGER_PADDING, exponent adjustment) and of pad_integral (sign, '+', width, fill, alignment, '0'), compared text-exactly with the real code over every flag combination. "
+         "Kernel-checked for ALL inputs: C16_round_ascii_digits - the formatter's own ASCII-digit rounding (digit pair through the translated round_pair, guarded trailing-zeros flag, carry past "
+         "trailing nines, all-nines overflow, removed-digit count) returns exactly the declarative rounding Spec.roundNat that the numeric routines were proved to compute in C06/C07, for every "
+         "mode, sign, number and cut position; pad_integral without flags adds only the sign. The layout around the rounded digits (point, padding zeros, over-padding fallback) is judged per "
+         "generated input: the unflagged text is read by the grammar specification and must equal roundToScale with exactly N fraction digits (N+1 significant digits for {:.Ne}); flags must equal "
+         "pad_integral applied to the implementation's own unflagged text.",
+         "PARTIAL: the rounding core is a theorem; the placement of the point and the zeros (fmtIntFrac, fmtNoInt, zeroRightPad, exponential layout) is decided per generated input by the Lean oracle. "
+         "Trusted: Lean kernel, extractor (round_pair, needs_trailing_zeros), harness/driver, pad_integral model.",
+         "Lean 4 proof (ASCII-digit rounding = declarative rounding for all inputs) + text-exact correspondence + rounding oracle for the layout", "DESIGN.md §5 C16"),
  "C17": ("Lean model of the serde glue: Serialize = the Display model of C04, Deserialize of strings and of arbitrary-precision JSON numbers = the parser model of C05 on the literal text (digit for "
          "digit), the JSON-number adapters = serde_json's number grammar (recogniser) + the zero special case + the configured scale limit; integer/float tokens = exact conversions. Kernel-checked for "
          "ALL storable decimals: C17_string_roundtrip (from_str(Display d) is an equal decimal, and the identical digits and scale whenever the scale is non-negative), C17_jsonnum_roundtrip (the "
